@@ -144,6 +144,104 @@ def fmtVerdict (v : Verdict) : String :=
 
 def first (xs : List (Option String)) : Option String := xs.findSome? id
 
+/-- swap x and y of every vertex (the in-place change the harness makes before its second call) -/
+def swapPt (p : Pt UInt64) : Pt UInt64 := ⟨p.y, p.x⟩
+def swapGeom : BGeom → BGeom
+  | .lineString l => .lineString (l.map swapPt)
+  | .multiLineString ml => .multiLineString (ml.map (·.map swapPt))
+  | .polygon p => .polygon (p.map (·.map swapPt))
+  | .multiPolygon mp => .multiPolygon (mp.map (·.map (·.map swapPt)))
+  | g => g
+
+/-- judge one (input, answer) pair: Spec on the answer, exact comparison with the model -/
+def judgePair (base : String) (tol : Rat) (tolF : Float) (g og : BGeom) (inputSpec : Option String)
+    (members : Option BGeom) (checkMembers : Bool) : Verdict :=
+  match g, og with
+  | .lineString l, .lineString o =>
+    match pathRat l, pathRat o with
+    | some lr, some orr =>
+      let cv := mkCurve l lr
+      let w := walkCurve tol tolF cv []
+      -- `Simple` is quadratic in the number of vertices: not evaluated for long (smooth) inputs
+      let simpleIn := lr.length ≤ 260 && Spec.Simple lr
+      let gp := simpleIn && lr.length ≤ 64 && Spec.GenPos lr
+      let kind := if gp then "-simplegp" else if simpleIn then "-simple" else ""
+      let dropped := if orr.length < lr.length then "-drop" else ""
+      let long := if lr.length > 64 && orr.length * 65 < lr.length then "-longrun" else ""
+      let bo := if w.backoffs > 0 then "-bo" else ""
+      let tie := w.tie
+      let cls := s!"{base}{kind}{dropped}{long}{bo}{if onGrid lr then "" else "-nongrid"}{if tie then "-neartie" else ""}"
+      let simpleSpec := if gp && !Spec.Simple orr then some "simple-input-in-general-position-but-output-self-intersects" else none
+      let sp := first [inputSpec, specCurve lr orr tol, simpleSpec]
+      -- The walk iterates `Model.jBody` exactly as `Model.jLoop` does, so for three or more
+      -- vertices its final `out` is the model's answer; `simplifyLS` itself is run as well on
+      -- inputs of up to 150 vertices (and always for fewer than three) and must agree.
+      let viaWalk : Option Path := match w.final with
+        | some st => if st.done then some st.out else none
+        | none => none
+      let direct : Option (Except Fault Path) :=
+        if lr.length ≤ 150 || viaWalk.isNone then some (simplifyLS lr tol) else none
+      let df := if tie then none else
+        match viaWalk, direct with
+        | some m, some (.ok m') =>
+          if m != m' then some "driver-walk-differs-from-simplifyLS"
+          else if m == orr then none else some s!"model-keeps-{m.length}-impl-keeps-{orr.length}"
+        | some m, none => if m == orr then none else some s!"model-keeps-{m.length}-impl-keeps-{orr.length}"
+        | _, some (.ok m') => if m' == orr then none else some s!"model-keeps-{m'.length}-impl-keeps-{orr.length}"
+        | _, some (.error e) => some s!"model-faults-{repr e}"
+        | none, none => some "no-model-answer"
+      ⟨sp, df, cls⟩
+    | _, _ => ⟨none, none, "skipped-nonfinite"⟩
+  | .multiLineString ml, .multiLineString mo =>
+    match pathsRat ml, pathsRat mo with
+    | some mr, some mor =>
+      let ws := (ml.zip mr).map fun (b, r) => walkCurve tol tolF (mkCurve b r) []
+      let tie := ws.any (·.tie)
+      let cls := s!"{base}-{mr.length}{if tie then "-neartie" else ""}"
+      let memSpec := match members with
+        | some (.multiLineString mm) => if mm == mo then none else some "members-not-simplified-independently"
+        | _ => if checkMembers then some "members-missing" else none
+      let sp := first [inputSpec, zipSpec mr mor tol, memSpec]
+      let df := if tie then none else
+        match simplifyMLS mr tol with
+        | .ok m => if m == mor then none else some "model-differs"
+        | .error e => some s!"model-faults-{repr e}"
+      ⟨sp, df, cls⟩
+    | _, _ => ⟨none, none, "skipped-nonfinite"⟩
+  | .polygon p, .polygon po =>
+    match pathsRat p, pathsRat po with
+    | some pr, some por =>
+      let ws := (p.zip pr).map fun (b, r) => walkCurve tol tolF (mkCurve b r) pr
+      let tie := ws.any (·.tie)
+      let bo := if ws.any (·.backoffs > 0) then "-bo" else ""
+      let cls := s!"{base}-{min pr.length 4}{bo}{if tie then "-neartie" else ""}"
+      let sp := first [inputSpec, zipSpec pr por tol]
+      let df := if tie then none else
+        match simplifyPG pr tol with
+        | .ok m => if m == por then none else some "model-differs"
+        | .error e => some s!"model-faults-{repr e}"
+      ⟨sp, df, cls⟩
+    | _, _ => ⟨none, none, "skipped-nonfinite"⟩
+  | .multiPolygon mp, .multiPolygon mpo =>
+    match pathssRat mp, pathssRat mpo with
+    | some mr, some mor =>
+      let ws := (mp.zip mr).flatMap fun (pb, pr) => (pb.zip pr).map fun (b, r) => walkCurve tol tolF (mkCurve b r) pr
+      let tie := ws.any (·.tie)
+      let cls := s!"{base}-{mr.length}{if tie then "-neartie" else ""}"
+      let memSpec := match members with
+        | some (.multiPolygon mm) => if mm == mpo then none else some "members-not-simplified-independently"
+        | _ => if checkMembers then some "members-missing" else none
+      let shape := if mr.length != mor.length then some "member-count-changed" else
+        (mr.zip mor).findSome? fun (a, b) => zipSpec a b tol
+      let sp := first [inputSpec, shape, memSpec]
+      let df := if tie then none else
+        match simplifyMPG mr tol with
+        | .ok m => if m == mor then none else some "model-differs"
+        | .error e => some s!"model-faults-{repr e}"
+      ⟨sp, df, cls⟩
+    | _, _ => ⟨none, none, "skipped-nonfinite"⟩
+  | _, _ => ⟨some "answer-has-a-different-geometry-type", none, base⟩
+
 def judgeLine (line : String) : String :=
   let (lhs, rhs) := splitArrow (tokens line)
   match lhs with
@@ -157,7 +255,7 @@ def judgeLine (line : String) : String :=
         let ty := match g with
           | .lineString _ => "ls" | .multiLineString _ => "mls" | .polygon _ => "pg" | .multiPolygon _ => "mpg" | _ => "other"
         let base := s!"{gen}-{ty}"
-        -- implementation's answer
+        -- implementation's answer:  ok <GEOM> same|mutated stable|unstable [members <GEOM>] [again <GEOM>]
         match rhs with
         | "timeout" :: _ => s!"SPEC {base} does-not-terminate"
         | "panic" :: m => s!"SPEC {base} panics {" ".intercalate m}"
@@ -167,95 +265,25 @@ def judgeLine (line : String) : String :=
           | none => s!"DIFF {base} unparsable-answer"
           | some (og, rest) =>
             let same := rest.head? == some "same"
-            let members : Option BGeom := match rest with
-              | _ :: "members" :: mt => (Proto.pGeom 4 mt).map (·.1)
+            let stable := (rest.drop 1).head? == some "stable"
+            let rest := rest.drop 2
+            let (members, rest) : Option BGeom × Tok := match rest with
+              | "members" :: mt => match Proto.pGeom 4 mt with
+                | some (m, r) => (some m, r)
+                | none => (none, [])
+              | r => (none, r)
+            let again : Option BGeom := match rest with
+              | "again" :: agt => (Proto.pGeom 4 agt).map (·.1)
               | _ => none
-            let inputSpec := if same then none else some "input-was-modified"
-            match g, og with
-            | .lineString l, .lineString o =>
-              match pathRat l, pathRat o with
-              | some lr, some orr =>
-                let cv := mkCurve l lr
-                let w := walkCurve tol tolF cv []
-                -- `Simple` is quadratic in the number of vertices: not evaluated for long (smooth) inputs
-                let simpleIn := lr.length ≤ 260 && Spec.Simple lr
-                let gp := simpleIn && lr.length ≤ 64 && Spec.GenPos lr
-                let kind := if gp then "-simplegp" else if simpleIn then "-simple" else ""
-                let dropped := if orr.length < lr.length then "-drop" else ""
-                let long := if lr.length > 64 && orr.length * 65 < lr.length then "-longrun" else ""
-                let bo := if w.backoffs > 0 then "-bo" else ""
-                let tie := w.tie
-                let cls := s!"{base}{kind}{dropped}{long}{bo}{if onGrid lr then "" else "-nongrid"}{if tie then "-neartie" else ""}"
-                let simpleSpec := if gp && !Spec.Simple orr then some "simple-input-in-general-position-but-output-self-intersects" else none
-                let sp := first [inputSpec, specCurve lr orr tol, simpleSpec]
-                -- The walk iterates `Model.jBody` exactly as `Model.jLoop` does, so for three or more
-                -- vertices its final `out` is the model's answer; `simplifyLS` itself is run as well on
-                -- inputs of up to 150 vertices (and always for fewer than three) and must agree.
-                let viaWalk : Option Path := match w.final with
-                  | some st => if st.done then some st.out else none
-                  | none => none
-                let direct : Option (Except Fault Path) :=
-                  if lr.length ≤ 150 || viaWalk.isNone then some (simplifyLS lr tol) else none
-                let df := if tie then none else
-                  match viaWalk, direct with
-                  | some m, some (.ok m') =>
-                    if m != m' then some "driver-walk-differs-from-simplifyLS"
-                    else if m == orr then none else some s!"model-keeps-{m.length}-impl-keeps-{orr.length}"
-                  | some m, none => if m == orr then none else some s!"model-keeps-{m.length}-impl-keeps-{orr.length}"
-                  | _, some (.ok m') => if m' == orr then none else some s!"model-keeps-{m'.length}-impl-keeps-{orr.length}"
-                  | _, some (.error e) => some s!"model-faults-{repr e}"
-                  | none, none => some "no-model-answer"
-                fmtVerdict ⟨sp, df, cls⟩
-              | _, _ => "OK skipped-nonfinite"
-            | .multiLineString ml, .multiLineString mo =>
-              match pathsRat ml, pathsRat mo with
-              | some mr, some mor =>
-                let ws := (ml.zip mr).map fun (b, r) => walkCurve tol tolF (mkCurve b r) []
-                let tie := ws.any (·.tie)
-                let cls := s!"{base}-{mr.length}{if tie then "-neartie" else ""}"
-                let memSpec := match members with
-                  | some (.multiLineString mm) => if mm == mo then none else some "members-not-simplified-independently"
-                  | _ => some "members-missing"
-                let sp := first [inputSpec, zipSpec mr mor tol, memSpec]
-                let df := if tie then none else
-                  match simplifyMLS mr tol with
-                  | .ok m => if m == mor then none else some "model-differs"
-                  | .error e => some s!"model-faults-{repr e}"
-                fmtVerdict ⟨sp, df, cls⟩
-              | _, _ => "OK skipped-nonfinite"
-            | .polygon p, .polygon po =>
-              match pathsRat p, pathsRat po with
-              | some pr, some por =>
-                let ws := (p.zip pr).map fun (b, r) => walkCurve tol tolF (mkCurve b r) pr
-                let tie := ws.any (·.tie)
-                let bo := if ws.any (·.backoffs > 0) then "-bo" else ""
-                let cls := s!"{base}-{min pr.length 4}{bo}{if tie then "-neartie" else ""}"
-                let sp := first [inputSpec, zipSpec pr por tol]
-                let df := if tie then none else
-                  match simplifyPG pr tol with
-                  | .ok m => if m == por then none else some "model-differs"
-                  | .error e => some s!"model-faults-{repr e}"
-                fmtVerdict ⟨sp, df, cls⟩
-              | _, _ => "OK skipped-nonfinite"
-            | .multiPolygon mp, .multiPolygon mpo =>
-              match pathssRat mp, pathssRat mpo with
-              | some mr, some mor =>
-                let ws := (mp.zip mr).flatMap fun (pb, pr) => (pb.zip pr).map fun (b, r) => walkCurve tol tolF (mkCurve b r) pr
-                let tie := ws.any (·.tie)
-                let cls := s!"{base}-{mr.length}{if tie then "-neartie" else ""}"
-                let memSpec := match members with
-                  | some (.multiPolygon mm) => if mm == mpo then none else some "members-not-simplified-independently"
-                  | _ => some "members-missing"
-                let shape := if mr.length != mor.length then some "member-count-changed" else
-                  (mr.zip mor).findSome? fun (a, b) => zipSpec a b tol
-                let sp := first [inputSpec, shape, memSpec]
-                let df := if tie then none else
-                  match simplifyMPG mr tol with
-                  | .ok m => if m == mor then none else some "model-differs"
-                  | .error e => some s!"model-faults-{repr e}"
-                fmtVerdict ⟨sp, df, cls⟩
-              | _, _ => "OK skipped-nonfinite"
-            | _, _ => s!"SPEC {base} answer-has-a-different-geometry-type"
+            let inputSpec := first [if same then none else some "input-was-modified",
+              if stable then none else some "answer-changed-after-a-later-call"]
+            let v1 := judgePair base tol tolF g og inputSpec members true
+            -- the identical call repeated after the operand was changed in place (x/y swapped)
+            let v2 : Verdict := match again with
+              | some og2 => judgePair base tol tolF (swapGeom g) og2 none none false
+              | none => ⟨none, none, ""⟩
+            fmtVerdict ⟨first [v1.spec, v2.spec.map ("second-call-after-in-place-change:" ++ ·)],
+              first [v1.diff, v2.diff.map ("second-call-after-in-place-change:" ++ ·)], v1.cls⟩
         | _ => s!"DIFF {base} bad-answer {" ".intercalate rhs}"
     | _, _ => "BAD parse"
   | _ => "BAD line"
